@@ -131,6 +131,8 @@ namespace plan
       op.a = {static_cast<long>(r.below(6)), static_cast<long>(r.below(6)), static_cast<long>(r.chance(3, 4) ? 1 : r.below(4))};
     else if (name == "pin")
       op.a = {static_cast<long>(r.below(6)), static_cast<long>(r.below(5)), static_cast<long>(r.below(3)), static_cast<long>(r.below(96))};
+    else if (name == "opred")
+      op.a = {static_cast<long>(r.below(4)), static_cast<long>(r.below(3)), static_cast<long>(r.below(2))};
     else if (name == "spred")
       op.a = {static_cast<long>(r.below(4)), static_cast<long>(r.below(2)), static_cast<long>(r.below(3))};
     else if (name == "cut")
@@ -272,7 +274,7 @@ namespace plan
       cls(2, with_e ? 4 : 0);    // C : A [, E]
       cls(3, with_e ? 5 : 4);    // D : B, C
     }
-    bool twin_fields = false;
+    bool twin_fields = false, obj_chain = false;
     if (diamond)
       ;
     else if (objects && (prop == "C17" || prop == "C01") && sw.chance(1, prop == "C17" ? 4 : 10))
@@ -284,6 +286,31 @@ namespace plan
       c1.a = {0, static_cast<long>(g.below(2)), 2, 1};
       ops.push_back(c0);
       ops.push_back(c1);
+    }
+    else if (objects && Rng(seed).derive("obj-chain").chance(1, prop == "C17" ? 5 : 14))
+    { // a chain C0 <- C1 <- C2 with instances of the lower classes, variables over the top class and a predicate whose object
+      // parameter has the MIDDLE class: a variable of C0 handed to it keeps the instances of C1 and of C2
+      obj_chain = true;
+      for (long sup = 0; sup < 3; ++sup)
+      {
+        Op c;
+        c.name = "class";
+        c.a = {sup, static_cast<long>(g.below(2)), 0, 0};
+        ops.push_back(c);
+      }
+      static const long order[] = {2, 1, 2, 0, 1};
+      for (int i = 0, k = static_cast<int>(g.range(2, 5)); i < k; ++i)
+      {
+        Op o = g_op(g, "inst");
+        o.a[0] = order[i];
+        ops.push_back(o);
+      }
+      for (int i = 0, k = static_cast<int>(g.range(1, 2)); i < k; ++i)
+      {
+        Op o = g_op(g, "ovar");
+        o.a[0] = 0;
+        ops.push_back(o);
+      }
     }
     else if (objects)
     {
@@ -329,6 +356,17 @@ namespace plan
       for (int i = 0, n = static_cast<int>(sw.range(1, 2)); i < n; ++i)
         ops.push_back(g_op(g, "cpred"));
     }
+    bool obj_params = false;
+    if (objects && (obj_chain || Rng(seed).derive("obj-params").chance(1, prop == "C17" ? 3 : 8)))
+    { // predicates with an object-typed parameter; goals and facts on them come from the ordinary mix below
+      obj_params = true;
+      for (int i = 0, n = static_cast<int>(g.range(1, 2)); i < n; ++i)
+      {
+        ops.push_back(g_op(g, "opred"));
+        if (obj_chain && i == 0)
+          ops.back().a[0] = 1; // the middle class
+      }
+    }
     if (sv)
       for (int i = 0, n = static_cast<int>(sw.range(1, 2)); i < n; ++i)
         ops.push_back(g_op(g, "svclass"));
@@ -367,6 +405,8 @@ namespace plan
       w.add("rr", 5), w.add("use", 14), w.add("horizon", 2), w.add("disj", 6), w.add("goal", 4);
     else if (logic)
       w.add("disj", 3);
+    if (obj_params)
+      w.add("goal", 8), w.add("fact", 8), w.add("r_rel", 3);
     w.add("cut", sw.chance(1, 2) ? 3 : 0);
     int n = static_cast<int>(sw.range(4, causal || sv || rr ? 14 : 18));
     if (class_preds)
